@@ -202,9 +202,15 @@ impl Check for C13 {
         tier.pick(10_000, 200_000)
     }
     fn required_counters(&self, _tier: Tier) -> Vec<&'static str> {
-        vec!["mut:content", "mut:signature", "proof:faulty", "expiry:judged", "historical:judged", "node:duty-events", "node:own-quote-forged", "node:history-steps", "node:late-older-quotes", "node:inconsistent-quotes", "node:peer-left-the-routing-table-between-quotes", "historical:later-quote-dated-ahead-of-our-clock"]
+        vec!["mut:content", "mut:signature", "proof:faulty", "expiry:judged", "historical:judged", "node:duty-events", "node:own-quote-forged", "node:history-steps", "node:late-older-quotes", "node:inconsistent-quotes", "node:peer-left-the-routing-table-between-quotes", "historical:later-quote-dated-ahead-of-our-clock", "realnet:quotes-from-real-nodes"]
+    }
+    fn lane_cases(&self, tier: Tier) -> u64 {
+        tier.pick(6, 48)
     }
     fn run_case(&self, cx: &mut Cx) {
+        if cx.index >= LANE_BASE {
+            return crate::realcases::c13_case(cx);
+        }
         // every 8th case runs the node's quote-verification duty and the driver's per-peer quote history
         if cx.index % 8 == 7 {
             return node_case(cx);
